@@ -4,10 +4,43 @@
 use crate::ast::*;
 use bitcoin::hashes::{hash160, ripemd160, sha256, Hash};
 use miniscript::miniscript::ScriptContext;
-use miniscript::{hash256, BareCtx, Legacy, Miniscript, Segwitv0, Tap};
+use miniscript::{hash256, BareCtx, Legacy, Miniscript, Segwitv0, Tap, Terminal};
+use std::sync::Arc;
 
-fn emit<Ctx: ScriptContext>(w: &World, ctxname: &str, m: &Miniscript<Key, Ctx>) {
-    println!("FRAG {} {} | {} | {}", ctxname, m.ty, dump_str(w, &m.node), hex(m.encode().as_bytes()));
+/// The sugar wrappers t:, l:, u: have typing rules of their own (`Type::cast_true`,
+/// `cast_likely`, `cast_unlikely`) that `type_check` never calls — the policy compiler does,
+/// and stores the result unchecked.  Emit the desugared fragment with the type those rules claim.
+fn emit_sugar<Ctx: ScriptContext>(w: &World, ctxname: &str, m: &Miniscript<Key, Ctx>) {
+    use miniscript::miniscript::types::Type;
+    let arc = |x: Miniscript<Key, Ctx>| Arc::new(x);
+    let cands: Vec<(Result<Type, miniscript::miniscript::types::ErrorKind>, Terminal<Key, Ctx>)> = vec![
+        (m.ty.cast_true(), Terminal::AndV(arc(m.clone()), arc(Miniscript::TRUE))),
+        (m.ty.cast_likely(), Terminal::OrI(arc(Miniscript::FALSE), arc(m.clone()))),
+        (m.ty.cast_unlikely(), Terminal::OrI(arc(m.clone()), arc(Miniscript::FALSE))),
+    ];
+    for (ty, node) in cands {
+        if let (Ok(ty), Ok(full)) = (ty, Miniscript::<Key, Ctx>::from_ast(node)) {
+            let admitted = full.validate_non_top_level(&Ctx::CONSENSUS).is_ok();
+            let sugared = Miniscript::<Key, Ctx>::from_components_unchecked(full.node.clone(), ty, full.ext);
+            emit(w, ctxname, admitted, &sugared);
+        }
+    }
+}
+
+fn emit<Ctx: ScriptContext>(w: &World, ctxname: &str, admitted: bool, m: &Miniscript<Key, Ctx>) {
+    // `admitted`: also passes the context's consensus validation parameters (what the string
+    // parser enforces); the non-malleability label `e` is only promised for those
+    println!(
+        "FRAG {} {} {} | {} | {}",
+        ctxname,
+        if admitted { "adm" } else { "ast" },
+        m.ty,
+        dump_str(w, &m.node),
+        match std::panic::catch_unwind(std::panic::AssertUnwindSafe(|| m.encode())) {
+            Ok(s) => hex(s.as_bytes()),
+            Err(_) => "!".to_string(),
+        }
+    );
 }
 
 fn gen_ctx<Ctx: ScriptContext>(w: &World, ctxname: &str, ci: CtxInfo, seed: u64, n: u64) {
@@ -22,9 +55,14 @@ fn gen_ctx<Ctx: ScriptContext>(w: &World, ctxname: &str, ci: CtxInfo, seed: u64,
         let depth = (i % 3) as u32;
         if let Some(m) = g.gen::<Ctx>(b, depth) {
             // keep fragments small enough for exhaustive stack enumeration
-            // only fragments the context's consensus rules admit (e.g. no d:/or_i in Bare/Legacy)
-            if m.iter().count() <= 7 && m.validate_non_top_level(&Ctx::CONSENSUS).is_ok() {
-                emit(w, ctxname, &m);
+            // every fragment the programmatic constructor (from_ast) accepts; those the context's
+            // validation parameters refuse as well (e.g. d:/or_i in Bare/Legacy) are marked
+            let admitted = m.validate_non_top_level(&Ctx::CONSENSUS).is_ok();
+            if m.iter().count() <= 7 {
+                emit(w, ctxname, admitted, &m);
+                if m.iter().count() <= 5 && i % 2 == 0 {
+                    emit_sugar(w, ctxname, &m);
+                }
             }
         }
     }
@@ -63,4 +101,5 @@ pub fn run(args: &[String]) {
     gen_ctx::<Tap>(&w, "tap", CtxInfo { tap: true, legacy_like: false, n_keys: 4 }, seed ^ 0x11, n);
     gen_ctx::<Legacy>(&w, "legacy", CtxInfo { tap: false, legacy_like: true, n_keys: 4 }, seed ^ 0x22, n / 2);
     gen_ctx::<BareCtx>(&w, "bare", CtxInfo { tap: false, legacy_like: true, n_keys: 4 }, seed ^ 0x33, n / 2);
+    println!("END frags");
 }
